@@ -67,7 +67,11 @@ def runOp (op : String) (variant : List String) (ints : List Nat) (xs : Array α
   | "fuse" => go do
       let l ← rdOpinion i0
       let r ← rdOpinion i0
-      return .ok (fuse (fuseOpOfNat i1) (i2 == 1) l r).flat
+      -- guard-lattice coverage tag: operator / classification of each operand by the model's guards / base-rate path
+      let cls (w : Opinion α i0) : String := if w.isDogmatic then "dog" else if w.isVacuous then "vac" else "mid"
+      let opn := match fuseOpOfNat i1 with | .acm => "acm" | .ecm => "ecm" | .avg => "avg" | .wgh => "wgh"
+      let tag := opn ++ ":" ++ cls l ++ "-" ++ cls r ++ (if i2 == 1 then ":shared" else "")
+      return .ok (fuse (fuseOpOfNat i1) (i2 == 1) l r).flat [] [tag]
   | "fuse_os" => go do
       let l ← rdOpinion i0
       let r ← rdSimplex i0
